@@ -145,6 +145,42 @@ func upperGuard(b *ssa.BasicBlock, idx, x ssa.Value, same func(a, b ssa.Value) b
 	return "", false
 }
 
+// rotatedCounterBound: idx is the counter of a bottom-tested loop (`for i := range n`): a phi of 0 — entered only
+// under `0 < n` — and idx+1 — taken only under `idx+1 < n` — with n the length of x.
+func rotatedCounterBound(idx, x ssa.Value) (string, bool) {
+	phi, ok := idx.(*ssa.Phi)
+	if !ok || len(phi.Edges) != 2 {
+		return "", false
+	}
+	okInit, okBack := false, false
+	desc := ""
+	for i, e := range phi.Edges {
+		pred := phi.Block().Preds[i]
+		iff, isIf := pred.Instrs[len(pred.Instrs)-1].(*ssa.If)
+		if !isIf || pred.Succs[0] != phi.Block() {
+			return "", false
+		}
+		bo, isBin := iff.Cond.(*ssa.BinOp)
+		if !isBin || bo.Op != token.LSS || !lenBoundOf(bo.Y, x) {
+			return "", false
+		}
+		if k, isK := constInt(e); isK && k == 0 {
+			if z, isZ := constInt(bo.X); isZ && z == 0 {
+				okInit = true
+			}
+			continue
+		}
+		inc, isInc := e.(*ssa.BinOp)
+		if isInc && inc.Op == token.ADD && inc.X == ssa.Value(phi) && bo.X == ssa.Value(inc) {
+			if one, isOne := constInt(inc.Y); isOne && one == 1 {
+				okBack = true
+				desc = an.D().Of(bo)
+			}
+		}
+	}
+	return desc, okInit && okBack
+}
+
 // lengthAtLeast: a guard at b proves len(x) >= n.
 func lengthAtLeast(b *ssa.BasicBlock, x ssa.Value, n int64) (string, bool) {
 	for _, g := range allGuards(b) {
@@ -326,11 +362,14 @@ func sameCursorLoad(a, b ssa.Value) bool {
 	return ok1 && ok2 && an.SameField(an.FieldOfAddr(fa), an.FieldOfAddr(fb)) && an.D().Of(fa.X) == an.D().Of(fb.X)
 }
 
-func boundsRule(c *core.Ctx, r *core.Report) {
+func boundsRule(c *core.Ctx, r *core.Report) { boundsRuleFor(c, r, inputFacing, 20) }
+
+// boundsRuleFor applies the bounding idioms to every index / slice expression of the selected functions.
+func boundsRuleFor(c *core.Ctx, r *core.Report, selected func(*ssa.Function) bool, floor int) {
 	n := 0
 	ord := map[string]int{}
 	for _, fn := range c.AllFuncs {
-		if !inputFacing(fn) {
+		if !selected(fn) {
 			continue
 		}
 		an.Instrs(fn, func(in ssa.Instruction) {
@@ -445,6 +484,10 @@ func boundsRule(c *core.Ctx, r *core.Report) {
 					r.OK(key, pos, "loop counter bounded by %s", g)
 					return
 				}
+				if g, ok := rotatedCounterBound(sidx, x); ok {
+					r.OK(key, pos, "loop counter of a bottom-tested loop bounded by %s", g)
+					return
+				}
 				r.Violation(key, pos, "loop counter indexes %s but the loop is not bounded by its length", xd)
 				return
 			}
@@ -470,5 +513,5 @@ func boundsRule(c *core.Ctx, r *core.Report) {
 			r.Violation(key, pos, "index %s into %s is not covered by any bounding idiom (no dominating guard proves it in range)", an.D().Of(idx), xd)
 		})
 	}
-	r.Floor("index/slice expressions in input-facing code", n, 20)
+	r.Floor("index/slice expressions in the code examined", n, floor)
 }
